@@ -145,8 +145,9 @@ class Ctx:
         }
         if extra:
             ev["coverage"].update(extra)
-        os.makedirs(os.path.join(VERIF, "evidence"), exist_ok=True)
-        path = os.path.join(VERIF, "evidence", self.prop + ".json")
+        evdir = os.environ.get("NV_EVIDENCE_DIR") or os.path.join(VERIF, "evidence")
+        os.makedirs(evdir, exist_ok=True)
+        path = os.path.join(evdir, self.prop + ".json")
         with open(path, "w") as fh:
             json.dump(ev, fh, indent=1)
             fh.write("\n")
@@ -159,7 +160,7 @@ class Ctx:
                 print("ANALYSIS-BROKEN property=%s rule=%s %s %s %s: %s" % (
                     self.prop, r.rule, r.status, r.func, r.construct, r.detail))
         if viol:
-            vp = os.path.join(VERIF, "evidence", self.prop + ".violation.txt")
+            vp = os.path.join(evdir, self.prop + ".violation.txt")
             with open(vp, "w") as fh:
                 for r in viol:
                     fh.write("rule=%s function=%s construct=%s loc=%s\n  %s\n" % (
@@ -169,7 +170,7 @@ class Ctx:
             print("VIOLATION property=%s replay=%s" % (self.prop, vp))
             return 1
         else:
-            vp = os.path.join(VERIF, "evidence", self.prop + ".violation.txt")
+            vp = os.path.join(evdir, self.prop + ".violation.txt")
             if os.path.exists(vp):
                 os.remove(vp)
         if bad:
